@@ -1,5 +1,5 @@
 from .. import facts
-from ..rules import image, geometry, codec, status, prefetch, deadcmp
+from ..rules import image, geometry, codec, status, prefetch, deadcmp, traps
 
 
 def run(ck):
@@ -20,3 +20,4 @@ def run(ck):
     status.r19_13_shortcut_needs_plain_destination(ck, P, 'C03-R13')   # a shortcut that ignores the alpha map ignores its bounds
     geometry.r12_dest_alpha_clip_offset(ck, P)
     deadcmp.r_equality_with_unreachable_value(ck, P, 'C03-R14', floor=300)   # the missed saturation walks rows outside the image
+    traps.r5_trap_shortcut(ck, P)             # C03-R5: the direct trapezoid route is taken only where clips and masks cannot matter
